@@ -204,6 +204,13 @@ func genRich(t *core.Tape, tier, prop string) *Scenario {
 	p.ReqHeader = genMeta(t, "X-Q", p.bin)
 	p.RespHeader = genMeta(t, "X-H", p.bin)
 	p.RespTrailer = genMeta(t, "X-T", p.bin)
+	if prop == "C11" && t.Bool(1, 8, "strict.handler.codec") {
+		// the handler's codecs marshal the service's own messages and nothing
+		// else: a gRPC Status cannot be built, the error's code and text are
+		// lost to that - its metadata, plain header fields, need not be
+		sc.Handlers[0].StrictCodec = true
+		sc.Notes["handler_codec_cannot_marshal_status"]++
+	}
 	if prop == "C11" && t.Bool(1, 4, "wellknown.names") {
 		// metadata under names HTTP itself knows but the protocols do not use:
 		// ordinary end-to-end fields an application may set (all of them legal
